@@ -239,6 +239,48 @@ pub fn run(ctx: &RunCtx) -> i32 {
         r.sym("deviation-runs");
         shared.merge(r);
     }
+    // look-alike ids: two requests outstanding; a response whose id is one of the 12 look-alikes (explore::near_id) of an
+    // outstanding id is a response to nothing - refused, no event - and the genuine response to that request is then still
+    // delivered, exactly once
+    {
+        let lcfgs = vec![
+            Cfg { transport: Transport::Unreliable { rto_ms: 100, gran_ms: 1, rm: 2, rc: 2 }, mech: Mech::None, fingerprint: false, max_tx: 10, cred: 0, method: 1 },
+            Cfg { transport: Transport::Reliable { timeout_ms: 300 }, mech: Mech::ShortTerm(Some(false)), fingerprint: true, max_tx: 10, cred: 0, method: 1 },
+        ];
+        lcfgs.par_iter().for_each(|cfg| {
+            let mut r = Report::new();
+            let ok = reply_menu(cfg)[0];
+            for k in 0..explore::NEAR_KINDS {
+                for which in [0usize, 1] {
+                    let proto = Mon::new(3, TimeDetail::Coarse);
+                    let mut run = explore::start(cfg, &apps, &proto);
+                    let mut hist: Vec<Event> = vec![];
+                    let mut go = |run: &mut explore::Run, hist: &mut Vec<Event>, ev: Event, r: &mut Report| {
+                        hist.push(ev.clone());
+                        let h = hist.clone();
+                        explore::step(run, &ev, Some((r, &h)))
+                    };
+                    go(&mut run, &mut hist, Event::Send { app: 0 }, &mut r);
+                    go(&mut run, &mut hist, Event::Send { app: 0 }, &mut r);
+                    go(&mut run, &mut hist, Event::Deliver { to: Target::Near(which, k), reply: ok }, &mut r);
+                    let o = go(&mut run, &mut hist, Event::Deliver { to: Target::Req(which), reply: ok }, &mut r);
+                    if !o.events.iter().any(|e| matches!(e, OEv::Recv { who: Who::Req(i), .. } if *i == which)) {
+                        r.violate(
+                            "genuine-response-not-delivered-after-a-lookalike-id",
+                            format!("look-alike kind {} of T{}: {:?} {:?}", k, which, o.res, super::world::show_events(&o.events)),
+                            json!({"config": cfg.show(), "events": explore::show_history(&hist), "history": hist}),
+                        );
+                    }
+                    go(&mut run, &mut hist, Event::Redeliver(usize::MAX), &mut r);
+                    go(&mut run, &mut hist, Event::TimerAt(3_600_000 * super::world::MS), &mut r);
+                    r.transitions += hist.len() as u64;
+                    r.states += hist.len() as u64;
+                }
+            }
+            r.sym("lookalike-ids");
+            shared.merge(r);
+        });
+    }
     // every error code: one request answered by an error response with each code 300..=699 (authenticated as the mechanism
     // wants it; 401 / 438 under long-term credentials as challenges), then the same buffer again, then a timer call far in the
     // future - whatever the code, the request has exactly one final outcome
@@ -300,9 +342,9 @@ pub fn run(ctx: &RunCtx) -> i32 {
         rep,
         Finish {
             level: "model_checking",
-            rule: format!("breadth-first exploration of the real client to depth {} over {{Send (<=2 concurrent, <=3 with coarse time), Timer, AdvanceTo(region representatives of every schedule point / deadline: -1 ms, exact, +1 ms, midpoint, beyond), Deliver(each awaiting or the last finished request x reply menu of the mechanism incl. auth-failing and 401/438, and an acceptable response that also carries an unknown comprehension-required attribute), Deliver(unknown id), Deliver(an indication / a request carrying the id of an awaiting request), a send into a 16-byte buffer}} for {} transport x mechanism configurations (two of them - thorough four - with request methods 0x080 / 0xFFF / 0x100 / 0xA5A instead of Binding); plus deviation-bounded run-to-completion (<= {} deviations: lost / duplicated / late / after-failure / mis-authenticated reply, early / late / very late timer, extra request) on the default 500 ms / Rc 7 / Rm 16 configuration; plus, for 10 configurations, one request answered by an error response with EVERY code 300..=699, delivered twice and followed by a late timer call (exactly one final outcome whatever the code). States deduplicated on the full client snapshot + monitor state; every transition executed on the implementation", depth, cfgs.len(), if thorough { 4 } else { 3 }),
+            rule: format!("breadth-first exploration of the real client to depth {} over {{Send (<=2 concurrent, <=3 with coarse time), Timer, AdvanceTo(region representatives of every schedule point / deadline: -1 ms, exact, +1 ms, midpoint, beyond), Deliver(each awaiting or the last finished request x reply menu of the mechanism incl. auth-failing and 401/438, and an acceptable response that also carries an unknown comprehension-required attribute), Deliver(unknown id), Deliver(an indication / a request carrying the id of an awaiting request), a send into a 16-byte buffer}} for {} transport x mechanism configurations (two of them - thorough four - with request methods 0x080 / 0xFFF / 0x100 / 0xA5A instead of Binding); plus deviation-bounded run-to-completion (<= {} deviations: lost / duplicated / late / after-failure / mis-authenticated reply, early / late / very late timer, extra request) on the default 500 ms / Rc 7 / Rm 16 configuration; plus responses whose id is one of 12 look-alikes of an outstanding id (refused; the genuine response is then delivered once); plus, for 10 configurations, one request answered by an error response with EVERY code 300..=699, delivered twice and followed by a late timer call (exactly one final outcome whatever the code). States deduplicated on the full client snapshot + monitor state; every transition executed on the implementation", depth, cfgs.len(), if thorough { 4 } else { 3 }),
             assumptions: vec!["time is explored through region representatives (the client only compares and subtracts instants)".into(), "dedup key is a 128-bit hash of the canonical state rendering".into()],
-            required_symbols: vec!["Send", "Timer", "Advance", "Deliver", "bfs-configs", "deviation-runs", "every-error-code"],
+            required_symbols: vec!["Send", "Timer", "Advance", "Deliver", "bfs-configs", "deviation-runs", "every-error-code", "lookalike-ids"],
             min_outcomes: 8,
             exhaustive: true,
             bounds: json!({"depth": depth, "max_concurrent": 2, "deviations": if thorough {4} else {3}}),
